@@ -15,7 +15,12 @@ import (
 )
 
 var FileType = NewType("file", `represents an open file`)
-var errClosed = ExceptionNewf(ValueError, "I/O operation on closed file.")
+
+// Errors are made afresh each time they are raised: a program which
+// catches one may modify it, and other contexts must not see that
+func errClosed() *Exception {
+	return ExceptionNewf(ValueError, "I/O operation on closed file.")
+}
 
 func init() {
 	FileType.Dict["write"] = MustNewMethod("write", func(self Object, value Object) (Object, error) {
@@ -78,7 +83,7 @@ func (o *File) Write(value Object) (Object, error) {
 
 	n, err := o.File.Write(b)
 	if err != nil && err.(*os.PathError).Err == os.ErrClosed {
-		return nil, errClosed
+		return nil, errClosed()
 	}
 	return Int(n), err
 }
@@ -137,7 +142,7 @@ func (o *File) Read(args Tuple, kwargs StringDict) (Object, error) {
 			return o.readResult(nil)
 		}
 		if perr, ok := err.(*os.PathError); ok && perr.Err == os.ErrClosed {
-			return nil, errClosed
+			return nil, errClosed()
 		}
 
 		return nil, err
@@ -192,7 +197,7 @@ func (o *File) Close() (Object, error) {
 func (o *File) Flush() (Object, error) {
 	err := o.File.Sync()
 	if perr, ok := err.(*os.PathError); ok && perr.Err == os.ErrClosed {
-		return nil, errClosed
+		return nil, errClosed()
 	}
 
 	return None, nil
